@@ -378,12 +378,19 @@ func genC08(r *hx.R, tier, scratch string) (*hx.Suite, error) {
 			Desc:  map[string]interface{}{"entry": entry, "length": len(data), "head": hx.JS(string(sample)), "class": cls, "reported": reported},
 			Class: "bytes:" + entry, Key: entry + "|" + string(data), Nontrivial: !wellFormed})
 	}
-	for i := 0; i < nBytes; i++ {
-		data := hx.Pick(r, corpus)
+	tiny := []string{"", " ", "\n", "\t\n", "\r\n", "  \n  ", "---", "---\n", "...", "#c", "# c\n", "{", "}", "{}", "[", "[]", "null", "~", "\"\"", "0", "-", ":", "?", "|", ">", "\x00", "\xef\xbb\xbf", "\xef\xbb\xbf\n", "{\n", " {}", "\n{}\n", "- ", "a: b", "%"}
+	for i := 0; i < nBytes+len(tiny); i++ {
+		var data []byte
 		wellFormed := true
-		for k, n := 0, r.Intn(3); k < n; k++ {
-			data = mutateBytes(r, data)
+		if i < len(tiny) {
+			data = []byte(tiny[i])
 			wellFormed = false
+		} else {
+			data = hx.Pick(r, corpus)
+			for k, n := 0, r.Intn(3); k < n; k++ {
+				data = mutateBytes(r, data)
+				wellFormed = false
+			}
 		}
 		for _, ext := range []string{".json", ".yaml"} {
 			path := filepath.Join(fileDir, "f"+ext)
